@@ -7,7 +7,7 @@ output references are carried as structured objects (absolute list of step/path 
 are extended when a lower level appends `/path` or `:method`.
 
     flatten(doc) -> Flat          (doc is the plain dict handed to Namespace(**doc))
-        .nodes  {location tuple: Node}; Node.fields (resolved non-argument fields), Node.tokens (argument tokens,
+        .nodes  {location tuple: Node}; Node.fields (resolved non-argument fields), Node.env, Node.tokens (argument tokens,
                 a reference token is ('REF', path, method)), Node.arg_refs [(token index, producer location, path,
                 method)], Node.refs {(producer location, path, method)}
     raises Invalid(kind, strict)  the namespace is not a valid program (strict=False: validity is debatable, the
@@ -62,10 +62,22 @@ class Ref(object):
         return 'Ref(%s,%s,#%s)' % ('/'.join(self.segs), self.method, self.origin)
 
 
+class Obj(object):
+    """A dictionary value (environment); only meaningful as the whole value of a parameter / field."""
+    __slots__ = ('value',)
+
+    def __init__(self, value):
+        self.value = value
+
+    def __repr__(self):
+        return 'Obj(%r)' % (self.value,)
+
+
 class Node(object):
     def __init__(self, location, template):
         self.location = location
         self.template = template
+        self.env = None          # None: default environment, ('none',): empty, ('dict', items): these variables
         self.fields = ()
         self.tokens = ()
         self.arg_refs = []
@@ -90,7 +102,12 @@ class _Flattener(object):
     # ------------------------------------------------------------------ values
     def parse(self, value, env, ctx):
         """value -> list of items. ctx = (workflow instance location, workflow template dict, target step) or None."""
-        if isinstance(value, bool) or value is None or isinstance(value, (dict, list, float)):
+        if isinstance(value, dict):
+            if not all(isinstance(k, str) and isinstance(v, (str, int)) and not isinstance(v, bool)
+                       for k, v in value.items()):
+                raise OutOfModel('dictionary value %r' % (value,))
+            return [Obj(dict(value))]
+        if isinstance(value, bool) or value is None or isinstance(value, (list, float)):
             raise OutOfModel('value of unsupported type %r' % (value,))
         if isinstance(value, int):
             return [Lit(str(value))]
@@ -128,6 +145,10 @@ class _Flattener(object):
                 items.append(Ref(tuple(here) + tuple(segs), None, self.origins))
         if pos < len(value):
             items.append(self.literal(value[pos:]))
+        if any(isinstance(x, Obj) for x in items):
+            if len(items) != 1:
+                raise OutOfModel('dictionary parameter mixed with text: %r' % value)
+            return items
         return self.assemble(items)
 
     @staticmethod
@@ -295,10 +316,19 @@ class _Flattener(object):
                     walk(prefix + (str(i),), v)
             elif prefix == ('command', 'arguments'):
                 arguments = value
+            elif prefix == ('command', 'environment'):
+                items = self.parse(value, env, None) if isinstance(value, (str, dict)) else None
+                if items and len(items) == 1 and isinstance(items[0], Obj):
+                    d = items[0].value
+                    node.env = ('dict', tuple(sorted((k, str(v)) for k, v in d.items()))) if d else ('none',)
+                elif items and len(items) == 1 and isinstance(items[0], Lit) and items[0].text == 'none':
+                    node.env = ('none',)
+                else:
+                    raise OutOfModel('command.environment %r' % (value,))
             elif isinstance(value, str):
                 items = self.parse(value, env, None)
-                if any(isinstance(x, Ref) for x in items):
-                    raise OutOfModel('reference in field %s' % '.'.join(prefix))
+                if any(not isinstance(x, Lit) for x in items):
+                    raise OutOfModel('reference or dictionary in field %s' % '.'.join(prefix))
                 fields.append(('.'.join(prefix), ''.join(x.text for x in items)))
             else:
                 fields.append(('.'.join(prefix), str(value)))
@@ -311,6 +341,8 @@ class _Flattener(object):
         tokens = []
         used_origins = set()
         for it in items:
+            if isinstance(it, Obj):
+                raise OutOfModel('dictionary parameter in arguments')
             if isinstance(it, Lit):
                 tokens.extend(it.text.split())
             else:
@@ -401,7 +433,7 @@ def expected_graph(flat):
     nodes = {}
     edges = {}
     for loc, n in flat.nodes.items():
-        nodes[loc] = (n.fields, n.tokens)
+        nodes[loc] = (n.fields, n.env, n.tokens)
         for (producer, path, method) in n.refs:
             edges.setdefault((producer, loc), set()).add(('ref', path, method))
         for (idx, producer, path, method) in n.arg_refs:
